@@ -185,8 +185,6 @@ def isPacked : Ty → Nat → Bool
   | .prim p, _ => p.packed
   | .arr _ t, v => isPacked t v
   | .wrap true t, v => isPacked t v
-  -- `impl Packed for ArrayVec<V, C>` forwards to `V` (a finding: its memory image is not its encoding)
-  | .seq (.arrayVec _) t, v => isPacked t v
   | .tup lay offs ts, v =>
     -- `impl Packed for (T1,..)`: first at 0, (middle offsets,) sizes sum to the total, all members packed
     allPackedL ts v && tupleChain lay.size offs ts
